@@ -287,8 +287,14 @@ def check_c04_engine(force, nodes, info):
     for k, layer in enumerate(got):
         if sorted(map(id, layer)) != sorted(map(id, L.get(k, []))):
             return ("C04:getLayers-mismatch", "layer %d reported by the engine differs from the stub chains" % k)
+    from mc.props import c04
+    bad = c04.check_structure([list(x) for x in got], nodes, force.options.get("stubWidth", 1))
+    if bad:
+        return bad
     if len(L) > 1:
         info["multi_layer"] += 1
+    if len(L) > 2:
+        info["engine_three_or_more_layers"] += 1
     return None
 
 
